@@ -217,3 +217,13 @@ def run(tier, seed, build):
     rep.assumptions += ["angles are handed to the code as degrees(atan2(p,q)); its rounding (1e-16 rad) is far inside 2^-%d" % TOL,
                         "tolerance 2^-%d of the term-magnitude scale computed by the specification" % TOL]
     return rep.finish()
+
+
+def replay(path, build):
+    """the stored replay file holds the failing definition/behaviour; the check is deterministic in VERIF_SEED, so the
+    violation is re-decided by re-running the tier that found it with the same seed"""
+    import json
+    import os
+    rp = json.load(open(path))
+    print("replaying %s: %s" % (rp.get("property"), str(rp.get("what"))[:300]))
+    return run(os.environ.get("VERIF_TIER", "quick"), int(os.environ.get("VERIF_SEED", "20261003")), build)
